@@ -26,7 +26,7 @@ def plan(tier, seed):
     parts = [Part(H, "methods_known", {}, 30, 30, "protocol enumeration == covered method list")]
     import vt.harness.c08 as HC  # noqa  (method list discovered from the repo at run time)
     for m in HC.METHODS:
-        for pos in ((0, 1) if m in HC.TWO_PATH else (0,)):
+        for pos in ((0, 1, 2) if m == "copy" else (0, 1) if m in HC.TWO_PATH else (0,)):
             parts.append(Part(H, "guard", {"m": m, "pos": pos}, 300, 60,
                               "reserved path rejected (ValueError/UnsupportedOperationError) and nothing mutating reaches the raw object", weight=2))
     for fam in ("", "metador", "xmetador_", "Metador_"):
@@ -37,7 +37,7 @@ def plan(tier, seed):
         parts.append(Part(H, "internal", {"pre": pre, "fam": fam}, 300, 60, "is_internal_path <=> some segment starts with metador_"))
     parts.append(Part(H, "unsupported", {}, 120, 30, "h5py.Group attributes outside the protocol are refused"))
     # clause (d): the bookkeeping never disturbs user data (container action sequences, C06 harness)
-    import vt.harness.cont as HK  # noqa
+    import vt.contactions as HK  # noqa
     for first in range(len(HK.ACTIONS)):
         parts.append(Part("vt.harness.cont", "seq", {"drv": "h5", "k": 2, "first": first}, 900, 300,
                           "(d) user-visible tree == the same user operations on a plain tree; listings never show reserved nodes"))
